@@ -339,7 +339,26 @@ fn abnormal(rec: &RunRecord) -> bool {
 }
 
 /// Compares delivery `b` against delivery `a` of the same session. `None` = same behaviour.
+fn codec_panic(r: &RunRecord) -> bool {
+    let in_codec = |p: &tokio::sim::PanicReport| {
+        p.frames.iter().any(|f| f.contains("LSCodec") || f.contains("lsp4spl::io::"))
+            || p.file.contains("io.rs")
+    };
+    r.task_panics.iter().any(|(_, p)| in_codec(p))
+        || matches!(&r.end, Some(tokio::sim::ProcessEnd::MainPanicked(p)) if in_codec(p))
+}
+
+fn foreign_panic(r: &RunRecord) -> bool {
+    (!r.task_panics.is_empty() || matches!(r.end, Some(tokio::sim::ProcessEnd::MainPanicked(_)))) && !codec_panic(r)
+}
+
 fn differ(sc: &Scenario, a: &RunRecord, b: &RunRecord, j: &mut Judgement) -> Option<(&'static str, String)> {
+    if foreign_panic(a) || foreign_panic(b) {
+        // a panic outside of the framing code that happens under one delivery only (e.g. under
+        // back-pressure) is a crash, not a framing matter
+        j.notes.push("other-property=C02 a task panicked outside of the codec in one of the deliveries".into());
+        return None;
+    }
     match (&a.hang, &b.hang) {
         (None, Some(h)) | (Some(h), None) => {
             let which = if a.hang.is_some() { "the first" } else { "the second" };
@@ -370,6 +389,16 @@ fn differ(sc: &Scenario, a: &RunRecord, b: &RunRecord, j: &mut Judgement) -> Opt
     let n1 = notifications(b);
     j.comparisons += n0.len() as u64;
     if n0 != n1 {
+        let mut s0: Vec<String> = n0.iter().map(|n| format!("{n:?}")).collect();
+        let mut s1: Vec<String> = n1.iter().map(|n| format!("{n:?}")).collect();
+        s0.sort();
+        s1.sort();
+        if s0 == s1 {
+            // the same notifications in another order: the broker's publications overtook each
+            // other under this schedule, which is C20's ordering clause, not framing
+            j.notes.push("other-property=C20 notifications arrive in a different order under this delivery's schedule".into());
+            return None;
+        }
         let k = n0.iter().zip(n1.iter()).position(|(x, y)| x != y).unwrap_or(n0.len().min(n1.len()));
         return Some((
             "same-notifications",
